@@ -2,7 +2,8 @@ import GuppyVerif.Model.TraceOwn
 import GuppyVerif.Util.Sexp
 /-! Line-protocol driver for C22.  Request: `trace <op>*` with ops `cXY` (create, X = copyable, Y = droppable,
     as 0/1), `u<id>`, `b<id>`, `r<id>`, `m0` / `m1` (mutate non-frozen / frozen).
-    Reply: `ok` | `alreadyUsed` | `leaked` | `frozen` | `badId` | `bad-op`. -/
+    Reply: `ok` | `alreadyUsed` | `leaked` | `frozen` | `badId` | `bad-op`.
+    `unpack <0|1 frozen> <shape> <path steps e|0|1>` → `frozen` | `ok` | `invalid`. -/
 open GuppyVerif GuppyVerif.TraceOwn
 
 def op? (t : String) : Option Op :=
@@ -21,11 +22,30 @@ def showRes : Except Err Unit → String
   | .error .frozen => "frozen"
   | .error .badId => "badId"
 
+/-- prefix shape syntax: `L` | `A <s>` | `S <s> <s>` | `T <s> <s>` -/
+partial def shape? : List String → Option (Shape × List String)
+  | "L" :: r => some (.leaf, r)
+  | "A" :: r => do let (e, r) ← shape? r; some (.arr e, r)
+  | "S" :: r => do let (a, r) ← shape? r; let (b, r) ← shape? r; some (.struct a b, r)
+  | "T" :: r => do let (a, r) ← shape? r; let (b, r) ← shape? r; some (.tuple a b, r)
+  | _ => none
+
+def step? : String → Option Step
+  | "e" => some .elem | "0" => some .fst | "1" => some .snd | _ => none
+
 def handle (line : String) : String :=
   match (line.splitOn " ").filter (· ≠ "") |>.map (·.trimAscii.toString) |>.filter (· ≠ "") with
   | "trace" :: toks =>
     match toks.mapM op? with
     | some ops => showRes (trace ops)
+    | none => "bad-op"
+  | "unpack" :: fr :: toks =>
+    match shape? toks with
+    | some (sh, path) =>
+      match path.mapM step? with
+      | some p => match mutateAt (unpack (fr == "1") sh) p with
+        | .ok _ => "ok" | .error .frozen => "frozen" | .error _ => "invalid"
+      | none => "bad-op"
     | none => "bad-op"
   | _ => "bad-op"
 
